@@ -150,7 +150,7 @@ def run_check(prop, tier):
             "exhaustive": bool(results) and all(r["complete"] and r["closed"] for r in results) and not engine_errors,
             "runs": [
                 {
-                    "label": r["label"], "args": r["run_args"], "bounds": {"P": r["P"], "D": r["D"], "E": r["E"]},
+                    "label": r["label"], "args": r["run_args"], "bounds": {"P": r["P"], "D": r["D"], "E": r["E"], "preemption_points": "operations on the object under test only (-focus)" if "-focus" in r["run_args"] else "every visible operation in the conflict-closed site set"},
                     "completed_P": r["completed_P"], "complete": r["complete"], "site_set_closed": r["closed"],
                     "executions": r["execs"], "final_pass_executions": r["last_pass_execs"], "outcomes": r["outcomes"],
                     "max_choice_points": r["max_cp"], "shared_sites": r["sites"], "kernel_threads": r["threads"],
@@ -204,7 +204,7 @@ def replay(path, verbose):
     h = HARNESSES[hname]
     libdir = fmcbuild.build_lib()
     exe = fmcbuild.build_harness(h.get("src", hname), h["kind"], libdir, extra_wraps=h.get("wraps", ()), lib_objs=h.get("objs"), defs=h.get("defs", ()), extra_srcs=h.get("extra_srcs", ()), link_flags=h.get("link_flags", ()), variant=h.get("variant", ""))
-    args = [a for a in info.get("args", "").split() if a.startswith("-D") or a.startswith("-S") or a.startswith("-horizon") or a.startswith("-L")]
+    args = [a for a in info.get("args", "").split() if a.startswith("-D") or a.startswith("-S") or a.startswith("-horizon") or a.startswith("-L") or a == "-focus"]
     cmd = [exe] + args + ["-replay=" + path] + (["-v"] if verbose else [])
     r = subprocess.run(cmd, stdout=subprocess.PIPE, stderr=subprocess.STDOUT, text=True)
     print(symbolize(exe, r.stdout))
